@@ -72,7 +72,10 @@ func (p *SliceLossIndication) Unmarshal(rawPacket []byte) error {
 		return err
 	}
 
-	if len(rawPacket) < (headerLength + int(4*h.Length)) {
+	// size of the packet body in octets (in int: 4*h.Length wraps in 16 bits)
+	length := 4 * int(h.Length)
+
+	if len(rawPacket) < (headerLength + length) {
 		return errPacketTooShort
 	}
 
@@ -86,7 +89,7 @@ func (p *SliceLossIndication) Unmarshal(rawPacket []byte) error {
 
 	p.SenderSSRC = binary.BigEndian.Uint32(rawPacket[headerLength:])
 	p.MediaSSRC = binary.BigEndian.Uint32(rawPacket[headerLength+ssrcLength:])
-	for i := headerLength + sliOffset; i < (headerLength + int(h.Length*4)); i += 4 {
+	for i := headerLength + sliOffset; i < (headerLength + length); i += 4 {
 		sli := binary.BigEndian.Uint32(rawPacket[i:])
 		p.SLI = append(p.SLI, SLIEntry{
 			First:   uint16((sli >> 19) & 0x1FFF),
